@@ -16,12 +16,28 @@ class SpecEval:
         self.bound = set(bound or ())
         self.entry_alloc = entry_alloc
         self.depth = 0
+        self.mode = None        # None | 'goal' (skolemize positive foralls) | 'assume' (register them for instantiation)
+        self.positive = True
+        self.ante = []
+        self.skolems = []
+        self.guard = 'true'
+        self.qvars = {}
 
     def sub(self, env=None, state=None, pkg=None):
         e = SpecEval(self.vc, pkg or self.pkg, env if env is not None else self.env, state or self.st, self.old,
                      self.old_env, self.rec_level, self.bound, self.entry_alloc)
         e.depth = self.depth + 1
+        e.mode, e.positive, e.ante, e.skolems, e.guard = self.mode, self.positive, list(self.ante), self.skolems, self.guard
+        e.qvars = dict(self.qvars)
         return e
+
+    def nonpos(self, e):
+        saved = self.positive
+        self.positive = False
+        try:
+            return self.eval(e)
+        finally:
+            self.positive = saved
 
     def err(self, msg):
         raise SpecError(msg)
@@ -80,9 +96,12 @@ class SpecEval:
     def e_old(self, e):
         if self.old is None:
             self.err('old() not allowed here')
-        ev = SpecEval(self.vc, self.pkg, self.old_env if self.old_env is not None else self.env, self.old, self.old,
+        env = dict(self.old_env if self.old_env is not None else self.env)
+        env.update(self.qvars)
+        ev = SpecEval(self.vc, self.pkg, env, self.old, self.old,
                       self.old_env, self.rec_level, self.bound, self.entry_alloc)
-        return ev.eval(e[1])
+        ev.qvars = dict(self.qvars)
+        return ev.nonpos(e[1])
 
     def coerce_pair(self, a, b):
         """nil adapts to the other side's sort"""
@@ -105,7 +124,7 @@ class SpecEval:
         self.err('nil compared with sort ' + other.sort)
 
     def e_unop(self, e):
-        x = self.eval(e[2])
+        x = self.nonpos(e[2])
         if e[1] == '!':
             return V(not_(x.term), 'Bool', 'bool')
         if e[1] == '-':
@@ -117,8 +136,19 @@ class SpecEval:
     def e_binop(self, e):
         op = e[1]
         if op in ('&&', '||', '==>', '<==>'):
-            a = self.eval(e[2])
-            b = self.eval(e[3])
+            if op == '&&':
+                a = self.eval(e[2])
+                b = self.eval(e[3])
+            elif op == '==>':
+                a = self.nonpos(e[2])
+                self.ante.append(a.term)
+                try:
+                    b = self.eval(e[3])
+                finally:
+                    self.ante.pop()
+            else:
+                a = self.nonpos(e[2])
+                b = self.nonpos(e[3])
             if a.sort != 'Bool' or b.sort != 'Bool':
                 self.err('boolean operator %s on non-boolean in %r' % (op, e))
             if op == '&&':
@@ -128,8 +158,8 @@ class SpecEval:
             if op == '==>':
                 return V(imp(a.term, b.term), 'Bool', 'bool')
             return V('(= %s %s)' % (a.term, b.term), 'Bool', 'bool')
-        a = self.eval(e[2])
-        b = self.eval(e[3])
+        a = self.nonpos(e[2])
+        b = self.nonpos(e[3])
         a, b = self.coerce_pair(a, b)
         if op in ('==', '!='):
             if a.sort != b.sort:
@@ -149,7 +179,7 @@ class SpecEval:
                 f = {'<': 'fp.lt', '<=': 'fp.leq', '>': 'fp.gt', '>=': 'fp.geq'}[op]
                 return V('(%s %s %s)' % (f, a.term, b.term), 'Bool', 'bool')
             if a.sort == 'Str' and b.sort == 'Str':
-                lt = self.vc.ufun('str.lt', ['Str', 'Str'], 'Bool')
+                lt = self.vc.ufun('gs.lt', ['Str', 'Str'], 'Bool')
                 x, y = a.term, b.term
                 if op in ('>', '>='):
                     x, y = y, x
@@ -170,14 +200,14 @@ class SpecEval:
                 if f:
                     return V('(%s %s %s)' % (f, a.term, b.term), a.sort, a.ts)
             if a.sort == 'Str' and b.sort == 'Str' and op == '+':
-                return V('(%s %s %s)' % (self.vc.ufun('str.concat', ['Str', 'Str'], 'Str'), a.term, b.term), 'Str', 'string')
+                return V('(%s %s %s)' % (self.vc.ufun('gs.concat', ['Str', 'Str'], 'Str'), a.term, b.term), 'Str', 'string')
             self.err('arithmetic %s on sorts %s/%s' % (op, a.sort, b.sort))
         self.err('binop ' + op)
 
     def e_ite(self, e):
-        c = self.eval(e[1])
-        a = self.eval(e[2])
-        b = self.eval(e[3])
+        c = self.nonpos(e[1])
+        a = self.nonpos(e[2])
+        b = self.nonpos(e[3])
         a, b = self.coerce_pair(a, b)
         if a.sort != b.sort:
             self.err('branches of ?: have different sorts %s/%s in %r' % (a.sort, b.sort, e))
@@ -185,6 +215,29 @@ class SpecEval:
 
     def quant(self, e, q):
         vs = e[1]
+        if q == 'forall' and self.positive and self.mode == 'goal':
+            # goal position: replace the bound variables by fresh constants (skolemization of the negated goal)
+            env = dict(self.env)
+            for (n, t) in vs:
+                ts = resolve_type(self.prog, self.pkg, t)
+                s = self.vc.sort_of(ts)
+                c = self.vc.declare('sk$' + n, s)
+                v = V(c, s, ts)
+                self.vc.range_assume(v)
+                env[n] = v
+                self.skolems.append(v)
+            ev = self.sub(env)
+            for (n, t) in vs:
+                ev.qvars[n] = env[n]
+            return ev.eval(e[2])
+        if q == 'forall' and self.positive and self.mode == 'assume':
+            qvars = []
+            for (n, t) in vs:
+                ts = resolve_type(self.prog, self.pkg, t)
+                qvars.append((n, self.vc.sort_of(ts), ts))
+            self.vc.register_qa({'vars': qvars, 'body': e[2], 'pkg': self.pkg, 'env': dict(self.env), 'st': self.st,
+                                 'old': self.old, 'old_env': self.old_env, 'ante': list(self.ante), 'guard': self.guard, 'qvars': dict(self.qvars),
+                                 'rec_level': self.rec_level})
         env = dict(self.env)
         decl = []
         ranges = []
@@ -198,6 +251,8 @@ class SpecEval:
             names.append(bn)
         ev = self.sub(env)
         ev.bound = self.bound | set(names)
+        for (n, t) in vs:
+            ev.qvars[n] = env[n]
         body = ev.eval(e[2])
         if body.sort != 'Bool':
             self.err('quantifier body is not boolean')
@@ -255,6 +310,12 @@ class SpecEval:
             if not self.mentions_bound(t):
                 val = V(self.vc.define('sp$' + fn_, val.sort, t), val.sort, ft_)
                 self.vc.range_assume(val)
+                # no dangling references: what memory holds is allocated
+                if self.st.alloc is not None:
+                    if val.sort == 'Slice':
+                        self.vc.assume('(< (s.arr %s) %s)' % (val.term, self.st.alloc))
+                    elif val.sort == 'Int' and self.prog.types.get(ft_) and self.prog.under(ft_)['k'] in ('ptr', 'map'):
+                        self.vc.assume('(< %s %s)' % (val.term, self.st.alloc))
             ref = val.term
         return val
 
@@ -280,7 +341,7 @@ class SpecEval:
             ets = b.ts[4:-1] if b.ts and b.ts.startswith('seq[') else None
             return V('(select (sq.a_%s %s) (+ (sq.o_%s %s) %s))' % (es, b.term, es, b.term, i.term), es, ets)
         if b.sort == 'Str':
-            return V('(str.at %s %s)' % (b.term, i.term), 'Int', 'int32')
+            return V('(gs.at %s %s)' % (b.term, i.term), 'Int', 'int32')
         if b.sort.startswith('Arr:'):
             return V('(select %s %s)' % (b.term, i.term), b.sort[4:], None)
         self.err('indexing sort ' + b.sort)
@@ -307,7 +368,7 @@ class SpecEval:
             self.err('%s expects %d arguments' % (name, len(sd.params)))
         argvs = []
         for a, (pn, pt) in zip(args, sd.params):
-            v = self.eval(a)
+            v = self.nonpos(a)
             pts = resolve_type(self.prog, sd.pkg, pt)
             ps = self.vc.sort_of(pts)
             if v.sort == 'Nil':
@@ -352,7 +413,7 @@ class SpecEval:
         if x.sort.startswith('Seq:'):
             return V('(sq.n_%s %s)' % (x.sort[4:], x.term), 'Int', 'int')
         if x.sort == 'Str':
-            return V('(str.blen %s)' % x.term, 'Int', 'int')
+            return V('(gs.blen %s)' % x.term, 'Int', 'int')
         self.err('len of sort ' + x.sort)
 
     def b_cap(self, args):
@@ -361,7 +422,7 @@ class SpecEval:
 
     def b_rlen(self, args):
         x = self.eval(args[0])
-        return V('(str.rlen %s)' % x.term, 'Int', 'int')
+        return V('(gs.rlen %s)' % x.term, 'Int', 'int')
 
     def b_seq(self, args):
         x = self.eval(args[0])
@@ -375,6 +436,20 @@ class SpecEval:
         if not self.mentions_bound(t):
             t = self.vc.define('sp$seq', 'Seq:' + es, t)
         return V(t, 'Seq:' + es, 'seq[' + ets + ']')
+
+    def b_heapof(self, args):
+        """heapof(T, f): the current field map of field f of struct type T as a value (sort Array Int <field sort>)"""
+        if args[0][0] != 'id' or args[1][0] != 'id':
+            self.err('heapof(Type, field) expects identifiers')
+        sts = resolve_type(self.prog, self.pkg, ('name', args[0][1]))
+        path = self.find_field(sts, args[1][1])
+        if not path or len(path) != 1:
+            self.err('heapof: no direct field %s in %s' % (args[1][1], sts))
+        st_, fn_, ft_ = path[0]
+        if self.st is None:
+            self.err('heapof in rec body')
+        hn, hs = self.vc.field_heap(st_, fn_, ft_)
+        return V(self.st.get(hn, hs), hs, 'fmap[' + ft_ + ']')
 
     def b_arr(self, args):
         x = self.eval(args[0])
